@@ -376,4 +376,36 @@ Section Seq.
       exists s2. cbn [bag_run]. destruct (bag_run (bag_next (m, k) c cs) r) as [rs cs'] eqn:E.
       cbn [fst snd] in *. split; [econstructor; eauto|exact H2].
   Qed.
+
+  (* ---- record_many(v, n) = the n consecutive push calls the machine runs for it (Exec.expand_prog):
+     it adds exactly n copies of v, each under its own call index; n = 0 adds nothing *)
+  Fixpoint many_calls (m k v : N) (n : nat) : list (N * N * call) :=
+    match n with O => [] | S n' => (m, k, CPush v) :: many_calls m (k + 1)%N v n' end.
+  Fixpoint many_vals (m k v : N) (n : nat) : list val :=
+    match n with O => [] | S n' => (m, k, v) :: many_vals m (k + 1)%N v n' end.
+
+  Lemma bag_run_many m v n : forall k cs,
+    fst (bag_run cs (many_calls m k v n)) = repeat RPush n /\
+    Permutation (concat (snd (bag_run cs (many_calls m k v n)))) (many_vals m k v n ++ concat cs).
+  Proof.
+    induction n as [|n IH]; intros k cs; cbn [many_calls many_vals bag_run repeat app]; [split; auto|].
+    destruct (IH (k + 1)%N (bag_next (m, k) (CPush v) cs)) as [E P].
+    destruct (bag_run (bag_next (m, k) (CPush v) cs) (many_calls m (k + 1)%N v n)) as [rs cs'] eqn:Eb.
+    cbn [fst snd bag_res] in *. split; [rewrite E; reflexivity|].
+    eapply Permutation_trans; [exact P|]. cbn [bag_next fst snd].
+    eapply Permutation_trans; [apply Permutation_app_head; apply push_contents_perm|].
+    apply Permutation_sym. apply Permutation_middle.
+  Qed.
+
+  Theorem seq_record_many s cs m k v n :
+    SeqState s cs ->
+    exists s' cs', seq_exec s (many_calls m k v n) s' (repeat RPush n) /\ SeqState s' cs' /\
+                   Permutation (concat cs') (many_vals m k v n ++ concat cs) /\
+                   (n = 0 -> s' = s /\ cs' = cs).
+  Proof.
+    intros H. destruct (seq_bag (many_calls m k v n) s cs H) as (s' & Ex & H').
+    destruct (bag_run_many m v n k cs) as [E P]. rewrite E in Ex.
+    exists s', (snd (bag_run cs (many_calls m k v n))). split; [exact Ex|split; [exact H'|split; [exact P|]]].
+    intros ->. cbn in *. inversion Ex; subst. auto.
+  Qed.
 End Seq.
